@@ -224,6 +224,7 @@ def main():
             log("no harness selected")
             sys.exit(2)
         results = []
+        jobs_by_name = {j["name"]: j for j in jobs}
         with cf.ThreadPoolExecutor(max_workers=args.jobs) as ex:
             futs = []
             for job, h, ov in tasks:
@@ -234,11 +235,23 @@ def main():
                     futs.append([ex.submit(run_gosym, job, h, tier, tmp, ov)])
             for group in futs:
                 results.append(merge_shards([f.result() for f in group]))
-        jobs_by_name = {j["name"]: j for j in jobs}
         # --- collect
         harness_res = []
+        api_mismatch = []
         for res in results:
             if res.get("error"):
+                job = jobs_by_name[res["_job"]]
+                st = res.get("_stderr", "")
+                # harness written against the API the design implies no longer type-checks against the generated code
+                if "moddir" in job and "package load/type errors" in res["error"] and "/vh/zz_h_" in st and "/gen/" not in st.split("gosym:")[0].replace("vdesign/gen/", ""):
+                    if not any(a["job"] == job["name"] for a in api_mismatch):
+                        outs = native_replay(job, [{"harness": res["_harness"], "tag": "build", "model": {}}], tmp, "build")
+                        err = " ".join(outs.get("_error", []))
+                        if "_error" in outs and ("vh/zz_h_" in err or "zz_h_" in err):
+                            api_mismatch.append({"job": job["name"], "harness": res["_harness"], "errors": [l for l in st.splitlines() if "load error" in l][:8], "native_build": err[-1500:]})
+                            continue
+                    else:
+                        continue
                 infra.append(f"{res['_job']}/{res['_harness']}: {res['error']} :: {res.get('_stderr','')[-1200:]}")
                 continue
             for h in res["harnesses"]:
@@ -337,6 +350,12 @@ def main():
                 rec["how_to_replay"] = f"cd {VERIF} && ./check {prop} --tier {tier} --only '^{rec['harness']}$'  (the native replay of this model is run automatically; overlay files: harness/{job['harness_dir']}/*.go + harness/common/prelude_replay.go.tmpl)"
                 json.dump(rec, open(path, "w"), indent=1)
                 violations_out.append((rec, path))
+        for am in api_mismatch:
+            os.makedirs(replay_dir, exist_ok=True)
+            path = os.path.join(replay_dir, f"{am['harness']}_generated_api_mismatch.json")
+            am["explanation"] = "the harness is written against the Go API and JSON shape that the catalogue design implies (and type-checks on the unchanged tree); against the code generated by this tree it no longer compiles, natively either (go test -overlay build output included)"
+            json.dump(am, open(path, "w"), indent=1)
+            violations_out.append(({"harness": am["harness"], "assert": "generated-api-matches-design", "model": {}, "detail": "; ".join(am["errors"])[:400]}, path))
         for kid, kf in known_seen.items():
             print(f"KNOWN-FINDING: property={prop} {kid}: {kf['description']}")
         for rec, path in violations_out:
